@@ -43,6 +43,14 @@ pub struct HistoryOpts {
     pub matrix: bool,
 }
 
+/// Everything observable of a finished history (C19): per-step records + final raw storage.
+pub fn finish_transcript(w: &mut World) -> Option<Vec<String>> {
+    let mut t = w.transcript.take()?;
+    let raw = crate::rawstate::dump(w.app.storage());
+    t.push(format!("final-storage {}", raw.iter().map(|(k, v)| format!("{}={}", hex(k), hex(v))).collect::<Vec<_>>().join(",")));
+    Some(t)
+}
+
 /// Per-transaction coverage derived from what the model observed.
 pub fn account(info: &StepInfo, op: &Top, rep: &mut Report, prop: &str) {
     let out = &info.out;
@@ -124,7 +132,15 @@ fn has_admin_op(op: &Top) -> bool {
 
 /// Generates and runs one history. Returns the executed program and the discrepancies of the first failing step.
 pub fn run_history(rng: &mut Rng, opts: &HistoryOpts, rep: &mut Report, prop: &str) -> (Case, Vec<Disc>) {
+    let (c, d, _) = run_history_t(rng, opts, rep, prop, false);
+    (c, d)
+}
+
+pub fn run_history_t(rng: &mut Rng, opts: &HistoryOpts, rep: &mut Report, prop: &str, record: bool) -> (Case, Vec<Disc>, Option<Vec<String>>) {
     let mut w = World::new();
+    if record {
+        w.transcript = Some(vec![]);
+    }
     let mut ops: Vec<Top> = vec![];
     let setup = setup_ops(&w.users.clone(), rng);
     for op in setup {
@@ -134,7 +150,7 @@ pub fn run_history(rng: &mut Rng, opts: &HistoryOpts, rep: &mut Report, prop: &s
             account(i, &op, rep, prop);
         }
         if !d.is_empty() {
-            return (Case { ops }, d);
+            return (Case { ops }, d, finish_transcript(&mut w));
         }
     }
     let mut todo: Vec<Top> = vec![];
@@ -178,25 +194,34 @@ pub fn run_history(rng: &mut Rng, opts: &HistoryOpts, rep: &mut Report, prop: &s
             account(i, &op, rep, prop);
         }
         if !d.is_empty() {
-            return (Case { ops }, d);
+            return (Case { ops }, d, finish_transcript(&mut w));
         }
     }
     // final quiescent-point checks
     let (d, _) = w.step(&Top::QueryBattery, rep);
     ops.push(Top::QueryBattery);
-    (Case { ops }, d)
+    let t = finish_transcript(&mut w);
+    (Case { ops }, d, t)
 }
 
 pub fn run_case(case: &Case, rep: &mut Report, prop: &str) -> Vec<Disc> {
+    run_case_t(case, rep, prop, false).0
+}
+
+pub fn run_case_t(case: &Case, rep: &mut Report, prop: &str, record: bool) -> (Vec<Disc>, Option<Vec<String>>) {
     let mut w = World::new();
+    if record {
+        w.transcript = Some(vec![]);
+    }
     for op in &case.ops {
         let (d, info) = w.step(op, rep);
         if let Some(i) = &info {
             account(i, op, rep, prop);
         }
         if !d.is_empty() {
-            return d;
+            return (d, finish_transcript(&mut w));
         }
     }
-    vec![]
+    let t = finish_transcript(&mut w);
+    (vec![], t)
 }
